@@ -549,9 +549,25 @@ func genItems(t *rapid.T, max int) []string {
 	return out
 }
 
-var c01QuotedNames = []string{"note", "gene", "product", "locus_tag", "db_xref"}
-var c01LiteralNames = []string{"codon_start", "transl_table", "number", "citation"}
-var c01ToggleNames = []string{"pseudo", "partial", "ribosomal_slippage"}
+// The three INSDC qualifier classes as the pinned tree knows them (harness's own copy: a name that silently changes
+// class in gts must not change class here too).
+var c01AllQuotedNames = strings.Fields(`allele altitude artificial_location bio_material bound_moiety cell_line cell_type chromosome
+	clone clone_lib collected_by collection_date country cultivar culture_collection db_xref dev_stage EC_number ecotype exception
+	experiment frequency function gap_type gene gene_synonym haplogroup haplotype host identified_by inference isolate
+	isolation_source lab_host lat_lon linkage_evidence locus_tag map mating_type metagenome_source mobile_element_type mol_type
+	ncRNA_class note old_locus_tag operon organelle organism PCR_conditions PCR_primers phenotype plasmid pop_variant product
+	protein_id pseudogene recombination_class regulatory_class replace rpt_family rpt_unit_seq satellite segment serotype serovar
+	sex specimen_voucher standard_name strain sub_clone submitter_seqid sub_species sub_strain tissue_lib tissue_type translation
+	type_material variety`)
+var c01AllLiteralNames = strings.Fields(`anticodon citation codon_start compare direction estimated_length mod_base number rpt_type
+	rpt_unit_range tag_peptide transl_except transl_table`)
+var c01AllToggleNames = strings.Fields(`environmental_sample focus germline macronuclear partial proviral pseudo rearranged
+	ribosomal_slippage transgenic trans_splicing`)
+
+// the random parts draw mostly from a few common names and sometimes from the whole class
+var c01QuotedNames = append([]string{"note", "gene", "product", "locus_tag", "db_xref", "note", "gene", "translation"}, c01AllQuotedNames...)
+var c01LiteralNames = append([]string{"codon_start", "transl_table", "number", "citation"}, c01AllLiteralNames...)
+var c01ToggleNames = append([]string{"pseudo", "partial", "ribosomal_slippage"}, c01AllToggleNames...)
 var c01UnknownNames = []string{"xq_one", "My_tag2", "z9"}
 
 func genQualValue(t *rapid.T, allowQuote bool) string {
@@ -797,6 +813,32 @@ func TestC01(t *testing.T) {
 		}
 	}
 	e3.done(thorough())
+	// every qualifier name of the three INSDC classes (and unknown names), with an empty, a plain, a two-line and a
+	// three-line value, alone and next to a second qualifier of another class
+	e5 := enumPart(t, c01Prop, st, "qualifier-names")
+	vals := []string{"", "plain value", "first line of the value\nsecond line", "MKLVINGKTLKGEITVEAPDAATAIKDALHAAGYDLSVEEIRIVHKEGLLTGAIQ\nSFSPPRLPSGHADAEVNYGKGLYRKLFP\nEND"}
+	classes := []struct {
+		names []string
+		vals  []string
+	}{{c01AllQuotedNames, vals}, {c01AllLiteralNames, []string{"1", "(pos:1..3,aa:Met)", "a=b"}}, {c01AllToggleNames, []string{""}}, {c01UnknownNames, vals}}
+	for _, cl := range classes {
+		for _, name := range cl.names {
+			for _, v := range cl.vals {
+				for _, extra := range [][]string{nil, {"note", "after"}, {"pseudo", ""}} {
+					quals := [][]string{{name, v}}
+					if extra != nil && extra[0] != name {
+						quals = append(quals, extra)
+					}
+					rec := gbRec{Locus: "QN", Mol: "DNA", Div: "SYN", Date: [3]int{2020, 2, 29}, Def: "q", Acc: "A", Ver: "A.1", ResLen: 12, ResSeed: 3,
+						Feats: []Feat{{Key: "CDS", Loc: lrg(0, 9), Quals: quals}, {Key: "gene", Loc: lrg(1, 5), Quals: [][]string{{"gene", "g"}}}}}
+					if !e5.try(c01Case{Mode: "record", Recs: []gbRec{rec}}) {
+						return
+					}
+				}
+			}
+		}
+	}
+	e5.done(true)
 	// every single edit of every small location shape: L residues, one feature whose location is a leaf, a complement,
 	// or a join/order of two leaves; delete/erase/slice with every (i,n), insert/embed at every i, every rotation, reverse
 	e4 := enumPart(t, c01Prop, st, "pipeline-small")
